@@ -325,6 +325,27 @@ def tmpl_handover(rng):
     return p + read_fragment(rng) + q
 
 
+def tmpl_pending_return(rng):
+    """Prefix that leaves a last-jump-source behind, area-less filler in front of it (so that command
+    index != block index), hand-over by reading input, then a ♡ evaluated BEFORE any new jump."""
+    filler = []
+    for _ in range(rng.randint(0, 6)):
+        filler += rng.choice([[(0, 1, rng.randint(0, 3), None)], [(0, 1, 2, None), (1, 1, rng.choice([4, 5, 6]), None)]])
+    k = rng.random()
+    if k < 0.45:
+        p = tmpl_countdown(rng, iters=rng.choice([2, 3, 4]))
+    elif k < 0.7:
+        p = tmpl_heart_return(rng)[:-1]
+    else:
+        p = [(0, 1, 1, None), (0, 1, 1, None), (0, 1, 6, None), (0, 1, 1, None), (0, 1, 1, None),
+             (1, 1, 5, 2), (1, 1, 5, ('?', None, 2))]
+    mid = rng.choice([read_fragment(rng), [(5, 1, 2, None)], [(5, 1, 1, None)], [(5, 1, 0, None), (1, 1, 4, None), (5, 1, 3, None)]])
+    between = [(0, 1, rng.randint(1, 3), None)] * rng.randint(0, 2)
+    ret = [(0, 1, rng.choice([0, 1, 2]), rng.choice([13, 13, ('?', 13, None), ('?', None, 13), ('!', 13, 13)]))]
+    tail = [(1, 1, 1, None)] if rng.random() < 0.5 else []
+    return filler + p + between + mid + between + ret + tail
+
+
 def _hearts_of(a):
     out = []
     stack = [a]
@@ -463,6 +484,7 @@ TEMPLATES = {
 INPUT_TEMPLATES = {
     'stack0': lambda rng, ai: tmpl_stack0(rng),
     'handover': lambda rng, ai: tmpl_handover(rng),
+    'pending_return': lambda rng, ai: tmpl_pending_return(rng),
 }
 
 
